@@ -30,7 +30,7 @@ def _near(flat, scores):
 def _cm_cases(draw, max_size=10):
     s = draw(gen.score_sets(max_size=max_size, mag=1e300, max_easy=1000, huge_easy=True,
                             modes=gen.ALL_MODES + ("uint",),
-                            containers=("f64", "f64", "f32", "neg-int", "neg-f32", "pos-int", "f128")))
+                            containers=("f64", "f64", "f32", "neg-int", "neg-f32", "pos-int", "f128", "series")))
     thr = draw(gen.shaped_thresholds(s["pos"] + s["neg"], mag=1e300))
     f32 = draw(st.sampled_from([None, None, None, "float32", "float16"])) if s["mode"] in ("grid", "dyadic") else None
     return dict(s=s, thr=thr, sorted=draw(st.booleans()),
@@ -52,7 +52,13 @@ def _build(case, sc, ec):
         labels = np.concatenate([np.ones(len(pos), dtype=int), np.zeros(len(neg), dtype=int)])
         allv = np.concatenate([pos, neg])
         perm = np.argsort(np.sin(np.arange(len(allv)) * 12.9898), kind="stable")
-        return Scores.from_labels(labels[perm], allv[perm], pos_label=1, **kw)
+        la, sa = labels[perm], allv[perm]
+        if s.get("container") == "series":  # two columns of one frame with a non-positional index
+            import pandas as pd
+
+            idx = list(range(len(la)))[::-1]
+            la, sa = pd.Series(la, index=idx), pd.Series(sa, index=idx)
+        return Scores.from_labels(la, sa, pos_label=1, **kw)
     if case.get("sorted"):
         return Scores(np.sort(pos), np.sort(neg), is_sorted=True, **kw)
     if case.get("via") == "swap-twice":  # an object handed out by the library
